@@ -136,6 +136,15 @@ Theorem c14_repo_auto_cover_wf :
 Proof. exact gen_cover_ok. Qed.
 Print Assumptions c14_repo_auto_cover_wf.
 
+(* apply_patch is not modelled beyond its paths; what ties it to c14_covered_edit_undone is read from /repo on every
+   run: the auto checkpoint gets Patch::affected_paths, which pushes the path of every AddFile / DeleteFile / UpdateFile
+   and the destination of every move, PatchOp has no other variant, and every file-system call of
+   Workspace::apply_patch and of its undo is on a path derived from safe_join of one of these (plus the undo-by-effect
+   oracle on the real tool) *)
+Theorem c14_repo_patch_wf : patch_wf gen_patch_variants_ok gen_patch_cover gen_patch_progs = true.
+Proof. exact gen_patch_ok. Qed.
+Print Assumptions c14_repo_patch_wf.
+
 (* a tool-side resolver that trims its argument while the checkpoint side takes it literally (seeded change C14-4):
    `write "notes.txt "` checkpoints the absent "notes.txt ", edits notes.txt, and the rewind succeeds without
    undoing the edit *)
